@@ -31,6 +31,8 @@ type Obl struct {
 	Props   []string
 	Candidate bool // Model comes from a weakened query
 	Retried bool
+	Local   []string // declarations and assumptions local to this obligation (lemma proofs)
+	Presolved bool // decided by the generator itself (no solver query)
 }
 
 // State is the symbolic heap at a program point. Heaps absent from H are the entry heaps.
@@ -120,6 +122,7 @@ type Gen struct {
 	shapeErrors []string
 	errClasses []string
 	prelude  []string // assertions that hold globally (placed before all commands)
+	gathers  map[string]string // defining term of a gathered sequence -> its array constant
 }
 
 type Loop struct {
